@@ -460,7 +460,15 @@ func (e *Engine) idxAdd(a, b string) string {
 	if e.ar.mode == ModeBV {
 		return fmt.Sprintf("(bvadd %s %s)", a, b)
 	}
-	return fmt.Sprintf("(+ %s %s)", a, b)
+	r := fmt.Sprintf("(+ %s %s)", a, b)
+	if ai, ok := e.ar.getIv(a); ok {
+		if bi, ok := e.ar.getIv(b); ok {
+			if ri, ok := ivlOp(token.ADD, ai, bi); ok {
+				e.ar.setIv(r, ri.lo, ri.hi)
+			}
+		}
+	}
+	return r
 }
 
 func (e *Engine) idxSub(a, b string) string {
@@ -794,11 +802,13 @@ func (e *Engine) assumeLoadedLeaf(l Leaf, term string, st *State) {
 		if e.ar.mode == ModeInt {
 			w, s, _ := intInfo(l.Typ)
 			e.vc.assume("true", e.ar.InRange(term, w, s))
+			e.ar.setTypeIv(term, w, s)
 		}
 	case lkIdx:
 		e.vc.assume("true", e.ar.Cmp(tokGEQ, term, e.idxc(0), true))
 		if e.ar.mode == ModeInt {
 			e.vc.assume("true", e.ar.InRange(term, 64, true))
+			e.ar.setIv(term, big.NewInt(0), new(big.Int).Sub(pow2(63), big.NewInt(1)))
 		}
 	case lkRef:
 		e.vc.assume("true", fmt.Sprintf("(<= %s %s)", term, st.wm))
@@ -1162,6 +1172,11 @@ func (e *Engine) execBinOp(fr *Frame, st *State, v *ssa.BinOp) SV {
 		t, err := e.ar.BinOp(v.Op, x, y, w, s)
 		if err != nil {
 			panic(engErr(err.Error() + " at " + e.posStr(v.Pos())))
+		}
+		if ovf := e.ar.ovf; ovf != "" {
+			e.ar.ovf = ""
+			e.vc.oblige(e.oname(fr, "safety:overflow#"), st.pc, ovf, "signed arithmetic stays in range: "+e.posStr(v.Pos())+" "+v.String())
+			e.vc.assume(st.pc, ovf)
 		}
 		return &Sc{e.vc.define(name, e.ar.intSort(w), t)}
 	}
